@@ -19,6 +19,7 @@ EnText(l, y, m, d) ==
     [] l = 7 -> ToString(d) \o " " \o MonthNameEn[m] \o " " \o ToString(y)
     [] l = 8 -> DayOrd(d) \o " of " \o MonthNameEn[m] \o " " \o ToString(y)
     [] l = 9 -> MonthAbbrEn[m] \o " " \o ToString(d) \o " " \o ToString(y)
+    [] l = 10 -> ToString(y) \o "-" \o ToString(m) \o "-" \o ToString(d)
 
 (* ---- other cultures: month names and the day-month-year layouts *)
 MonthName(cul) ==
@@ -28,33 +29,50 @@ MonthName(cul) ==
     [] cul = "de-de" -> <<"Januar", "Februar", "M{e4}rz", "April", "Mai", "Juni", "Juli", "August", "September", "Oktober", "November", "Dezember">>
     [] cul = "it-it" -> <<"gennaio", "febbraio", "marzo", "aprile", "maggio", "giugno", "luglio", "agosto", "settembre", "ottobre", "novembre", "dicembre">>
     [] cul = "nl-nl" -> <<"januari", "februari", "maart", "april", "mei", "juni", "juli", "augustus", "september", "oktober", "november", "december">>
-(* layouts: 1 ISO; 2 dd/mm/yyyy; 3 dd-mm-yyyy; 4 d <month name> yyyy in the culture's idiom *)
+(* layouts: 1 ISO; 2 dd/mm/yyyy; 3 dd-mm-yyyy; 4 d <month name> yyyy in the culture's idiom; 5 the same with the
+   culture's ordinal mark on the day (1{ba} de mayo de 1999, 1er mai 1999, 2e mai 1999, 1e mei 1999, 1{b0} maggio 1999;
+   German writes the ordinal point in layout 4 already); 6 d/m/yyyy and 7 d-m-yyyy without padding *)
+OrdDay(cul, d) == CASE cul \in {"es-es", "es-mx", "pt-br"} -> ToString(d) \o "{ba}"
+                    [] cul = "fr-fr" -> ToString(d) \o (IF d = 1 THEN "er" ELSE "e")
+                    [] cul = "nl-nl" -> ToString(d) \o "e"
+                    [] cul = "it-it" -> ToString(d) \o "{b0}"
+                    [] OTHER -> ToString(d) \o "."
 OtherText(cul, l, y, m, d) ==
   IF cul = "zh-cn" THEN
       (CASE l = 1 -> DateStr(y, m, d)
          [] l = 2 -> ToString(y) \o "/" \o ToString(m) \o "/" \o ToString(d)
          [] l = 3 -> ToString(y) \o "-" \o ToString(m) \o "-" \o ToString(d)
-         [] l = 4 -> ToString(y) \o "{5e74}" \o ToString(m) \o "{6708}" \o ToString(d) \o "{65e5}")
+         [] l \in {4, 5} -> ToString(y) \o "{5e74}" \o ToString(m) \o "{6708}" \o ToString(d) \o "{65e5}"
+         [] l = 6 -> ToString(y) \o "/" \o Pad2(m) \o "/" \o Pad2(d)
+         [] l = 7 -> ToString(y) \o "-" \o Pad2(m) \o "-" \o Pad2(d))
   ELSE
       (CASE l = 1 -> DateStr(y, m, d)
          [] l = 2 -> Pad2(d) \o "/" \o Pad2(m) \o "/" \o ToString(y)
          [] l = 3 -> Pad2(d) \o "-" \o Pad2(m) \o "-" \o ToString(y)
          [] l = 4 -> (CASE cul \in {"es-es", "es-mx", "pt-br"} -> ToString(d) \o " de " \o MonthName(cul)[m] \o " de " \o ToString(y)
                         [] cul = "de-de" -> ToString(d) \o ". " \o MonthName(cul)[m] \o " " \o ToString(y)
-                        [] OTHER -> ToString(d) \o " " \o MonthName(cul)[m] \o " " \o ToString(y)))
+                        [] OTHER -> ToString(d) \o " " \o MonthName(cul)[m] \o " " \o ToString(y))
+         [] l = 5 -> (CASE cul \in {"es-es", "es-mx", "pt-br"} -> OrdDay(cul, d) \o " de " \o MonthName(cul)[m] \o " de " \o ToString(y)
+                        [] OTHER -> OrdDay(cul, d) \o " " \o MonthName(cul)[m] \o " " \o ToString(y))
+         [] l = 6 -> ToString(d) \o "/" \o ToString(m) \o "/" \o ToString(y)
+         [] l = 7 -> ToString(d) \o "-" \o ToString(m) \o "-" \o ToString(y))
 
 (* carriers: <<text before, text after>> per culture family *)
 CarrierPre(cul, k) == IF k = 1 THEN "" ELSE IF cul = "en-us" THEN "I left on " ELSE IF cul = "zh-cn" THEN "{6211}{5728}" ELSE "x "
 CarrierPost(cul, k) == IF k = 1 THEN "" ELSE IF cul = "en-us" THEN " ok" ELSE IF cul = "zh-cn" THEN "{8d70}{4e86}" ELSE " ."
 
-MkCase(cul, lay, expr, ref, k, y, m, d) ==
-  [prop |-> "C06", culture |-> cul, layout |-> lay, ref |-> ref,
+(* opt: the DateTimeOptions value of the call (0 = none, 4 = calendar mode) *)
+MkCase(cul, lay, expr, ref, k, y, m, d, opt) ==
+  [prop |-> "C06", culture |-> cul, layout |-> lay, ref |-> ref, opt |-> opt,
    text |-> CarrierPre(cul, k) \o expr \o CarrierPost(cul, k),
    s |-> CpLen(CarrierPre(cul, k)), e |-> CpLen(CarrierPre(cul, k)) + CpLen(expr) - 1,
    type |-> "date", vals |-> <<V1(DateStr(y, m, d), "date", DateStr(y, m, d))>>, ordered |-> FALSE]
 
-EnCases == { MkCase("en-us", l, EnText(l, t[1], t[2], t[3]), r, k, t[1], t[2], t[3]) : t \in Dates, l \in EnLayouts, r \in Refs, k \in Carriers }
-OtherCases == { MkCase(cul, l, OtherText(cul, l, t[1], t[2], t[3]), r, 1, t[1], t[2], t[3]) :
-                  t \in Dates, cul \in OtherCultures, l \in 1..4, r \in { x \in Refs : x = CHOOSE z \in Refs : TRUE } }
-Cases == EnCases \cup OtherCases
+OneRef == { x \in Refs : x = CHOOSE z \in Refs : TRUE }
+EnCases == { MkCase("en-us", l, EnText(l, t[1], t[2], t[3]), r, k, t[1], t[2], t[3], 0) : t \in Dates, l \in EnLayouts, r \in Refs, k \in Carriers }
+(* calendar mode filters some expressions on purpose, never a fully specified date *)
+EnCalendarCases == { MkCase("en-us", l, EnText(l, t[1], t[2], t[3]), r, k, t[1], t[2], t[3], 4) : t \in Dates, l \in EnLayouts, r \in OneRef, k \in {1} }
+OtherCases == { MkCase(cul, l, OtherText(cul, l, t[1], t[2], t[3]), r, 1, t[1], t[2], t[3], 0) :
+                  t \in Dates, cul \in OtherCultures, l \in 1..7, r \in OneRef }
+Cases == EnCases \cup EnCalendarCases \cup OtherCases
 =============================================================================
